@@ -227,3 +227,109 @@ CHECKS = {
         "technique": "Lean 4 proof over source-translated predicates + exhaustive small-scope correspondence + edit oracle",
     },
 }
+
+
+# ---------------------------------------------------------------------------------------------------------------
+# Final-state texts (they replace the entries above for the properties whose theorems were completed later).
+# The list of obligation names is appended to every text by manifest_gen.py from the Props files themselves.
+# ---------------------------------------------------------------------------------------------------------------
+CHECKS["C01"].update({
+    "text": ("Lexer: Lean model of Lexer.__next__/_read_* with lex_sound (tokens tile the text between ignored runs; every lexeme satisfies its spec "
+             "recogniser and decodes to the token value; maximal munch and number look-ahead), lex_render (completeness: every token list rendered with "
+             "arbitrary ignored runs lexes back to itself, ALL token kinds incl. numbers and block strings), lexAll_ok_iff (the lexer accepts a text exactly "
+             "when it is such a rendering), lex_ignored_invariant, lex_fuel_sufficient, render_total, error_in_range_partial (+ refutation: position len+1, "
+             "finding L6, pinned by the suite), table-to-spec theorems over the tables RE-EXTRACTED from lexer.py each run. Parser: Lean model of every "
+             "parse_* with parse_sound_document, parse_complete_document, parseDocument_accepts_iff (a token list is accepted exactly when it derives from "
+             "the grammar; the derivation is unique) for all 8 flag combinations and the three entry points; parse_text_accepts_iff / parse_text_result "
+             "compose lexer and parser at TEXT level; keyword/location tables re-extracted from parser.py. Tied by text->tokens->AST correspondence (str and "
+             "UTF-8 bytes) on grammar-directed documents, mutants, every prefix, fixtures, CR/LF/CRLF variants and bounded-exhaustive token strings, plus "
+             "direct oracles (spec recognisers, error contract, ignored-run invariance)."),
+    "note": ("Trusted: Lean kernel; table extraction; generators. Error positions are only proved in range up to the pinned L6 case. RecursionError on "
+             "deep nesting is the named probe (finding P1)."),
+    "technique": "Lean 4 proof (lexer soundness+completeness, grammar acceptance iff at text level, tables) + extracted tables + text/token/AST correspondence",
+})
+CHECKS["C03"].update({
+    "text": ("String level: quoted_roundtrip (lexAll (jsonDumps v) is exactly the String token v, all code-point lists) and block_roundtrip (FULL: for every "
+             "value the printer lays out as a block string, lexing the printed text and applying BlockStringValue gives the value back; with the layout "
+             "lemmas splitLines/joinLF, commonIndent shift, stripBlank). Document level: Lean model of the whole ASTPrinter (every print_*, "
+             "_wrap/_join/_block/_indent, indent int or string, include_descriptions): print_tokens_* (the printed text lexes to the expected token list), "
+             "print_parse_type / print_parse_value_full / print_parse_executable (exact), print_parse_document_modulo_members (ALL documents, type-system "
+             "definitions and extensions included: re-parsing the printed token list gives the tree back up to the member descriptions the printer drops) "
+             "and print_parse_document_exact when there are none, print_stable_* (print . parse . print = print), print_total, float_lexeme_spec; "
+             "print_parse_refuted + r4_* = machine-checked witness of finding R4 (member descriptions dropped; pinned by test_schema_kitchen_sink). Tied by "
+             "EXACT-TEXT correspondence of the pipeline text -> lexAll -> parse -> print with print_ast on generated executable and type-system documents, "
+             "fixtures and mutants for 7 indent settings, call histories of print_ast / ASTPrinter, and the direct round-trip / stability oracle."),
+    "note": ("Trusted: Lean kernel; generators. The document-level theorems are stated on the token list the printer emits (print_tokens_*) composed with "
+             "the parser model; the remaining text-level bridge hypothesis is named in Props/C03_document.lean (print_parse_modulo_members_of_bridge). "
+             "Known finding R4."),
+    "technique": "Lean 4 proof (string encoders, printer model, print/parse round trip for all documents modulo R4) + exact-text printer correspondence + round-trip oracle",
+})
+CHECKS["C04"].update({
+    "text": ("Lean model of collect_fields (with the _seen_fragments quirk), _skip_selection, _fragment_type_applies, execute_fields, resolve_field, "
+             "complete_value, resolve_type, default_resolver, serialisation and the error accumulator, and the spec's "
+             "CollectFields/ExecuteSelectionSet/CompleteValue: exec_refines_spec (for EVERY ranked document, named spreads included, the executor model's "
+             "response equals the spec's; collect_refines_spec handles the quirk), skip_include*, alias_merge, keys_document_order, abstract_possible_type, "
+             "local null/error lemmas, null_error_bijection (error paths are distinct and each is a null position), exec_world_congr / "
+             "siblings_undisturbed_world (changing the world under one response key leaves every other key's data and errors identical), exec_pure, "
+             "default_resolver_* (mapping / attribute lookup order), fuel monotonicity and sufficiency (responds: every ranked document gets a response). "
+             "Tied by ordered-data / error-multiset correspondence real executor vs model vs Lean spec on generated schemas, valid operations (multi-spread "
+             "with conditions, same-key merges under abstract types), worlds and request histories (fresh and REUSED parsed documents)."),
+    "technique": "Lean 4 proof (executor model = spec for all ranked documents, bijection, locality) + world-resolver correspondence",
+})
+CHECKS["C06"].update({
+    "text": ("Lean model of the whole validation chain (TypeInfo stacks, ChainedVisitor/SkipNode semantics, all 26 rule visitors, VariablesCollector, "
+             "fragment cycle search, field-merge search with its caches) whose rule list must equal SPECIFIED_RULES RE-EXTRACTED from validate.py each run "
+             "(rules_match_source); rule_*_iff (the rule is silent exactly when its declarative spec clause holds) for 14 rules: executable definitions, lone "
+             "anonymous operation, unique operation / fragment names, known fragment names, unique argument names, unique directives per location, single "
+             "field subscriptions, known type names, variables are input types, and the typed ones fields on correct type, scalar leafs, known argument "
+             "names, provided required arguments (on top of document_noskip: a non-skipping chain enters/leaves every node exactly once, and the typed walk "
+             "silent_iff_typed); for those: verdict_iff_all_partial, attribution_all_partial, perm_definitions/selections/arguments_partial, "
+             "alpha_fragments_partial; machine-checked refutations of order-invariance for the UNFIXED collector (V3, V4). The other 12 rules are listed in "
+             "Spec.Unproved (proved_all_or_listed). Tied by correspondence (verdict on every document; set of reporting rules on single-violation "
+             "documents; every rule standalone; schema and rule-instance histories) and the direct oracle: valid-by-construction => no error, each labelled "
+             "single-rule violation => error attributable to that rule, verdict unchanged under the six transformations."),
+    "note": ("Trusted: Lean kernel; generators/injectors; is_subtype/types_overlap hand-modelled. The 12 unproved rules and alias/variable renaming rest on "
+             "the correspondence + oracle. Known finding V8 (list literal at non-list position accepted)."),
+    "technique": "Lean 4 proof (14 of 26 rules, chain walk, invariances) + full-chain model correspondence + labelled-violation/metamorphic oracle",
+})
+CHECKS["C09"].update({
+    "text": ("execute_fields_serially as the code's state machine over the C08 algebra: keys_in_order, failure_does_not_stop, blocking_serial, serial_order "
+             "(trace form, every schedule: no resolver of top-level field k+1 starts before everything of field k has finished) with serial_order_tree, all "
+             "full. Tied by call/done event traces of the real executors under all completion orders (four configurations, real small pools, fragment-only "
+             "mutation roots, nested futures failing at each position) and the direct trace-predicate oracle."),
+    "note": "Trusted: Lean kernel; generators.",
+})
+CHECKS["C11"].update({
+    "text": ("Lean model of the SDL builder (collect definitions/extensions, build_*/extend_*, roots, defaults, deprecation, circular-reference guard, "
+             "ignore_extensions, additional_types): collect_exact / collect_ok / collect_rejects_*, build_exact_noext and build_exact_partial (documents with "
+             "extensions satisfying ValidExt: the built schema is the declared content with each extension's members appended in document order: "
+             "extension_merge_exact, extend_*_exact, link_*), build_perm (definitions AND extensions may be permuted, result equal up to order) with "
+             "build_perm_roots_noext, build_rejects (every error is a library error or the S1b RecursionError; refutation shows the disjunct is needed); the "
+             "unrestricted build_exact is refuted by a decide witness (finding S8), full statements visible. Tied by correspondence of canonical schema "
+             "dumps on generated SDL (six kinds, extensions split over blocks, permuted orders incl. extension-before-definition through extend_schema, "
+             "labelled defects incl. duplicates among extension-added members) and the direct oracle Declared(doc) / exception class."),
+})
+CHECKS["C12"].update({
+    "text": ("Lean model of ASTSchemaPrinter as schema -> text with the module-level directive-name state threaded explicitly: print_pure (for every history "
+             "of calls the k-th output equals the output of that call alone in a fresh state), print_pure_refuted_today_full (text-level 2-call witness of "
+             "H1 on a generator state), state lemmas; default_roundtrip / leaf_roundtrip / depr_roundtrip (printed default values and deprecation reasons "
+             "read back to the same value; input-object defaults excluded) and arg/field/enum_value/type_to_doc_build (building the printed definition of "
+             "a type gives the type back). Model text == real text on every call of random to_string histories; every history also runs in ONE forked child "
+             "and every call alone in a fresh child (catches any process-wide hidden state); direct oracles dump(build(to_string(s))) == dump(s), fixpoint, "
+             "parser accepts, root names differing only by case."),
+    "note": ("Trusted: Lean kernel; generators. to_doc_build is proved per type, not composed over the whole schema (oracle); include_introspection not "
+             "modelled. Known findings H2, H3, H5, H6, H8."),
+    "technique": "Lean 4 proof (printer purity over call histories, default/type round trip) + exact-text correspondence + fresh-process reference + round-trip oracle",
+})
+CHECKS["C14"].update({
+    "text": ("Object-heap model (identities, shallow copy, heal visitor, clone, transforms, extend, resolver registries) whose code variant flags are "
+             "RE-EXTRACTED from schema.py / ast_type_builder.py / schema_from_ast.py each run: clone_closed / transform_closed / heal_closed (every "
+             "reference reachable from the result resolves inside the result), clone_frames_source / transform_sequence_frames_source / extend_frames_source "
+             "/ extend_sequence_frames_source (the source heap is unchanged, all inputs), clone_intact / transform_intact, transform_owns_result, "
+             "healed_registered, busted_accumulates, extend_keeps_type_resolvers_fixed, untouched_preserved_extend_partial (member composition for extend "
+             "is the open part), with machine-checked refutations for the legacy variants (T1,T2,T3,S2). Tied by correspondence of the live object graph "
+             "(identities canonicalised, registries included) over random clone/transform/extend/register sequences and direct closedness / frame / "
+             "preservation oracles."),
+    "note": "Trusted: Lean kernel; flag extraction; generators. untouched_preserved for extend is partial (args/members composed per type, not per schema).",
+    "technique": "Lean 4 proof over heap model (closedness and frame for clone/transform/extend) + live object-graph correspondence",
+})
